@@ -107,13 +107,13 @@ def matchFloat (colon : Bool) (b : Bytes) : Option Bytes :=
 /-! ## tokStringRule -/
 
 def stringRuleSrc : String :=
-  "^\"(?:[^\\\\\"]|\\\\(?:[abfnrtv\\\\\"]|[0-7]{3}|x[[:xdigit:]]{2}|u[[:xdigit:]]{4}|U[[:xdigit:]]{8}))*\""
+  "^\"(?:[^\\\\\"]|\\\\(?:[abfnrtv\\\\\"/]|[0-7]{3}|x[[:xdigit:]]{2}|u[[:xdigit:]]{4}|U[[:xdigit:]]{8}))*\""
 
 /-- What the rule demands after `\c`: the number of further bytes and whether
 they are hex (`true`) or octal (`false`) digits; `none` = not an escape. -/
 def ruleEsc (c : UInt8) : Option (Nat × Bool) :=
   if c == 0x61 || c == 0x62 || c == 0x66 || c == 0x6E || c == 0x72 || c == 0x74 || c == 0x76
-      || c == 0x5C || c == 0x22 then some (0, true)
+      || c == 0x5C || c == 0x22 || c == 0x2F then some (0, true)
   else if isOct c then some (2, false)
   else if c == 0x78 then some (2, true)
   else if c == 0x75 then some (4, true)
@@ -264,6 +264,28 @@ def encodeRune (r : Nat) : Bytes :=
     [UInt8.ofNat (0xF0 + r / 262144), UInt8.ofNat (0x80 + r / 4096 % 64),
      UInt8.ofNat (0x80 + r / 64 % 64), UInt8.ofNat (0x80 + r % 64)]
 
+/-- After a `\uXXXX` escape with value `r`: if `r` is a UTF-16 surrogate and
+the input continues with another complete `\uYYYY` (at least 6 bytes, starting
+`\u`), the two are decoded as one code point when they form a high/low pair
+(`utf16.DecodeRune`) and both escapes are consumed; otherwise `r` alone is
+encoded (a lone surrogate becomes U+FFFD) and the following escape is left for
+the next iteration.  `none` = panic in `unhex`. -/
+def surrPair (r : Nat) (rest : Bytes) : Option (Bytes × Bytes) :=
+  if 0xD800 ≤ r && r < 0xE000 then
+    match rest with
+    | c :: d :: g0 :: g1 :: g2 :: g3 :: rest2 =>
+      if c == 0x5C && d == 0x75 then
+        match hexByte g2 g3, hexByte g0 g1 with
+        | some lo2, some hi2 =>
+          let r2 := lo2 + hi2 * 256
+          if r < 0xDC00 && 0xDC00 ≤ r2 && r2 < 0xE000 then
+            some (encodeRune (0x10000 + (r - 0xD800) * 1024 + (r2 - 0xDC00)), rest2)
+          else some (encodeRune r, rest)
+        | _, _ => none
+      else some (encodeRune r, rest)
+    | _ => some (encodeRune r, rest)
+  else some (encodeRune r, rest)
+
 /-- The `switch c2` of `unquoteBytes`, applied to the input after `\c2`.
 Returns the bytes appended and the remaining input; `none` = panic (index out
 of range, or `unhex` on a non-hex character). -/
@@ -284,7 +306,7 @@ def goEscape (c2 : UInt8) (v : Bytes) : Option (Bytes × Bytes) :=
     | h0 :: h1 :: h2 :: h3 :: rest =>
       -- Go evaluates parseHexByte(value[2], value[3]) first, then (value[0], value[1])
       match hexByte h2 h3, hexByte h0 h1 with
-      | some lo, some hi => some (encodeRune (lo + hi * 256), rest)
+      | some lo, some hi => surrPair (lo + hi * 256) rest
       | _, _ => none
     | _ => some (runeError, [])
   else if c2 == 0x55 then
